@@ -34,7 +34,7 @@ def cases(tier, seed):
                     seen.append(ks)
                     for ext in (False, True):
                         out.append(dict(fn='even', n=n, xs=xs, reduced=red, knees=ks, extremes=ext, int_range=[0, 8]))
-            for ks in (([[1], [1, n - 2], list(range(1, n - 1))] if n < 5 else [[2], [1, 3]]) if q else list(sublists(range(0, n), 1, 3))):
+            for ks in (([[1], [1, n - 2], list(range(1, n - 1))] if n < 5 else [[2], [1, 3], [1, 2, 4], [0, 3, 4]]) if q else list(sublists(range(0, n), 1, 3))):
                 if not ks or sorted(set(ks)) != ks:
                     continue
                 for ext in (False, True):
